@@ -539,6 +539,7 @@ def run_load_reapply(ctx: Ctx) -> RuleResult:
     repo, ty, cg = ctx.repo, ctx.typer, ctx.cg
     res = RuleResult('R-LOAD-REAPPLY', 'what the fresh path derives from a load-allowed option and does not serialise '
                                        'is re-derived on the load path')
+    res.default_props = ['C11', 'C12']
     lm = repo.module('lark.lark')
     allowed = set(lm.const('_LOAD_ALLOWED_OPTIONS'))
     defaults = repo.cls('lark.lark:LarkOptions').literal_attr('_defaults')
@@ -649,7 +650,7 @@ def run_load_reapply(ctx: Ctx) -> RuleResult:
         res.ob(load.loc(), 'option %s: read at %d places while building, %d while loading' % (o, len(fr), len(onload.get(o, []))), ok)
         if not ok:
             res.finding(load, load.node, 'option %s may be passed when loading but nothing on the load path reads it' % o,
-                        construct='option:' + o)
+                        construct='option:' + o, props=['C11', 'C12'] + (['C15'] if o == 'use_bytes' else []))
     # options that are not load-allowed must be refused by _load
     kwn = load.node.args.kwarg.arg if load.node.args.kwarg else 'kwargs'
     gifs = [n for n in load.body_nodes() if isinstance(n, ast.If) and '_LOAD_ALLOWED_OPTIONS' in norm(n.test) and any(isinstance(x, ast.Raise) for x in ast.walk(n))]
